@@ -41,6 +41,7 @@ def run(ctx):
     ctx.guard(rule_d, ctx, ix)
     ctx.guard(rule_e, ctx, ix)
     ctx.guard(rule_f, ctx, ix)
+    ctx.guard(rule_g, ctx, ix)
 
 
 def _ev(ix):
@@ -568,3 +569,34 @@ def run_thorough(ctx):
             'glue.core.data_derived', 'glue.core.roi'}
     from . import common as _c
     _c.check_inplace_fresh(ctx, R, ix, [m for m in mods if m not in done], exceptions={})
+
+
+def rule_g(ctx, ix):
+    """Where a selection is handed from one subset to another it is copied (the two subsets must not share one state)."""
+    R = 'C01.g'
+    ctx.describe(R, 'hand-over of a selection between subsets copies it', floor=3)
+    rows = [('glue.core.subset.Subset', 'paste'), ('glue.core.subset_group.SubsetGroup', 'paste'),
+            ('glue.core.data.BaseData', 'new_subset')]
+    for cq, meth in rows:
+        c = ix.cls(cq)
+        f = c.resolve_func(meth)
+        if f is None:
+            raise AnalysisError('%s.%s vanished' % (cq, meth))
+        src = f.params[1]
+        stores = [st for st in walk_no_nested(f.node) if isinstance(st, ast.Assign)
+                  and unparse(st.targets[0]).endswith('.subset_state')]
+        if not stores:
+            raise AnalysisError('%s: no store of a subset state' % f.construct)
+        for st in stores:
+            v = st.value
+            if isinstance(v, ast.Name):
+                defs = [d for d in walk_no_nested(f.node) if isinstance(d, ast.Assign) and unparse(d.targets[0]) == v.id]
+                v = defs[-1].value if defs else v
+            from_src = any(isinstance(n, ast.Name) and n.id == src for n in ast.walk(v))
+            if not from_src:
+                continue
+            copied = isinstance(v, ast.Call) and isinstance(v.func, ast.Attribute) and v.func.attr in ('copy', 'deepcopy')
+            ctx.ob(R, f.construct, 'the state taken from the other subset is copied', copied,
+                   detail='%s stores `%s` - the other subset\'s state object itself: the two subsets share one state, so editing '
+                          'one (move_to, an edit mode applied to one of them) alters the other' % (f.construct, unparse(v)),
+                   where=where(f, st))
